@@ -81,6 +81,12 @@ CHECKS = {
             'name<->opcode maps are checked exhaustively over 0..255.',
             'Trusted: the operation table and encoder in vf/enc/c12_expr.py (transcribed from DWARF v5 table 7.9 + GNU/WASM documents, refereed in development against readelf and llvm-dwarfdump).',
             'DESIGN.md 4/C12'),
+    'C13': ('Hypothesis-generated .debug_aranges / .debug_pubnames / .debug_pubtypes sections and multi-unit .debug_info + boundary sweep, own encoders; oracle = brute-force search of the model; exhaustive per-section offset lookup',
+            'Exploration: cu_offset_at_addr at every range boundary / gap / extreme address, .entries as a multiset with set headers; the name tables through every accessor of the '
+            'mapping interface incl. order and set headers; get_CU_containing at EVERY offset of generated multi-unit sections in several orders (cache population orders), get_CU_at, '
+            'interleaved partial iter_CUs, get_DIE_from_lut_entry for names that point at real DIEs.',
+            'Trusted: encoders in vf/enc/c13_tables.py (refereed against llvm-dwarfdump and readelf --debug-dump=aranges), vf/enc/dwarf.py. 64-bit-format aranges/name sets are outside the property domain.',
+            'DESIGN.md 4/C13'),
     'C14': ('Hypothesis-generated note-extent models + deterministic sweep, own note encoder, embedded as section / segment / both by an independent ELF writer; round-trip against the model',
             'Exploration: every note (owner, type, raw descriptor, offset, padded size), tiling of the extent, section view == segment view, decoded descriptors of '
             'GNU ABI tag / build id / gold version / property lists and CORE NT_PRPSINFO / NT_FILE (per class and uid-width machine set), type-name table switch on ET_CORE, and stab records.',
